@@ -13,7 +13,7 @@
 (***************************************************************************)
 EXTENDS SasLexer
 
-TokCoreM(t) == <<t.ty, t.ch, t.c>>
+TokCoreM(t) == <<t.ty, t.ch, t.c, t.pk, t.ps, t.pe>>
 ErrCoreM(e) == <<e.k, e.c>>
 
 \* the fields in which the model state S1 (reached from S by one step) differs from event e
@@ -24,7 +24,8 @@ StepDiffs(S, S1, e) ==
   (IF S1.pos = e.ca THEN {} ELSE {"cursor"}) \cup
   (IF S1.modes = e.cfg.modes THEN {} ELSE {"modes"}) \cup
   (IF S1.ck.set = e.cfg.ck.set /\ (S1.ck.set => (S1.ck.pos = e.cfg.ck.c /\ S1.ck.ml = e.cfg.ck.ml
-                                                  /\ S1.ck.nt = e.cfg.ck.nt /\ S1.ck.nl = e.cfg.ck.nl))
+                                                  /\ S1.ck.nt = e.cfg.ck.nt /\ S1.ck.nl = e.cfg.ck.nl
+                                                  /\ S1.ck.ns = e.cfg.ck.ns))
      THEN {} ELSE {"checkpoint"}) \cup
   (IF S1.pend = e.cfg.pend THEN {} ELSE {"pending"}) \cup
   (IF S1.nest = e.cfg.nest THEN {} ELSE {"nesting"}) \cup
@@ -32,13 +33,14 @@ StepDiffs(S, S1, e) ==
   (IF /\ nt = fc + Len(e.tt)
       /\ fc <= Len(S.toks)
       /\ SubSeq(S1.toks, 1, fc) = SubSeq(S.toks, 1, fc)
-      /\ \A j \in 1..Len(e.tt) : TokCoreM(S1.toks[fc + j]) = <<e.tt[j].ty, e.tt[j].ch, e.tt[j].c>>
+      /\ \A j \in 1..Len(e.tt) : TokCoreM(S1.toks[fc + j]) = <<e.tt[j].ty, e.tt[j].ch, e.tt[j].c, e.tt[j].pk, e.tt[j].ps, e.tt[j].pe>>
      THEN {} ELSE {"tokens"}) \cup
   (IF Len(S1.lines) = e.la /\ (e.la >= 1 => S1.lines[e.la] = (IF e.lt = <<>> THEN S1.lines[e.la] ELSE e.lt[Len(e.lt)][2]))
      THEN {} ELSE {"lines"}) \cup
   (IF /\ Len(S1.errs) = e.eb + Len(e.ne)
       /\ \A j \in 1..Len(e.ne) : ErrCoreM(S1.errs[e.eb + j]) = <<e.ne[j].k, e.ne[j].c>>
      THEN {} ELSE {"errors"}) \cup
+  (IF S1.nlit = e.nl THEN {} ELSE {"literal-buffer"}) \cup
   (IF (S1.fault = "") THEN {} ELSE {"model-fault:" \o S1.fault})
 
 \* the recorded state after event e, grafted onto the model state before it
@@ -47,10 +49,12 @@ Adopt(S, e) ==
       lkeep == IF e.lb < e.la THEN e.lb ELSE e.la
   IN [S EXCEPT
         !.pos = e.ca, !.ts = e.ca, !.modes = e.cfg.modes,
-        !.ck = [set |-> k.set, pos |-> k.c, ts |-> k.c, ml |-> k.ml, nt |-> k.nt, nl |-> k.nl],
+        !.ck = [set |-> k.set, pos |-> k.c, ts |-> k.c, ml |-> k.ml, nt |-> k.nt, nl |-> k.nl, ns |-> k.ns],
+        !.nlit = e.nl,
         !.pend = e.cfg.pend, !.nest = e.cfg.nest, !.ops = e.ops, !.fault = "",
         !.toks = SubSeq(S.toks, 1, IF e.fc < Len(S.toks) THEN e.fc ELSE Len(S.toks))
-                 \o [j \in 1..Len(e.tt) |-> [ty |-> e.tt[j].ty, ch |-> e.tt[j].ch, c |-> e.tt[j].c]],
+                 \o [j \in 1..Len(e.tt) |-> [ty |-> e.tt[j].ty, ch |-> e.tt[j].ch, c |-> e.tt[j].c,
+                                              pk |-> e.tt[j].pk, ps |-> e.tt[j].ps, pe |-> e.tt[j].pe]],
         !.lines = SubSeq(S.lines, 1, IF lkeep < Len(S.lines) THEN lkeep ELSE Len(S.lines))
                   \o [j \in 1..Len(e.lt) |-> e.lt[j][2]],
         !.errs = S.errs \o [j \in 1..Len(e.ne) |-> [k |-> e.ne[j].k, c |-> e.ne[j].c]]]
@@ -72,5 +76,5 @@ ConfLoop(r, T, S, i, acc) ==
 
 CONF_drift(r) ==
   IF ~r.ok \/ r.events = <<>> THEN {}
-  ELSE ConfLoop(r, [cs |-> r.cs, cc |-> r.cc], InitState(r.bom), 1, {})
+  ELSE ConfLoop(r, [cs |-> r.cs, cc |-> r.cc, cw |-> r.cw], InitState(r.bom), 1, {})
 =============================================================================
